@@ -160,6 +160,22 @@ Theorem C16_expired_gone_within_blocks : forall cfg t0 ops limit dts r e,
 Proof. exact expired_gone_eventually_all. Qed.
 Print Assumptions C16_expired_gone_within_blocks.
 
+(** The same with an individual sweep limit per block ([0] = no limit), which is the clause the
+    run-time checker evaluates on the implementation's observations after every block of a run
+    of consecutive blocks (tag prop:expired_gone_within_blocks): enough is that some block of the
+    run has no limit, or that the limits add up to the number of attributes expired by the last
+    block's time. *)
+Theorem C16_expired_gone_within_blocks_any_limits : forall cfg t0 ops l r e,
+  let s := run cfg t0 ops in
+  Forall (fun p => 0 <= fst p /\ 0 <= snd p) l ->
+  In r (s_recs s) -> a_exp r = Some e ->
+  match l with p :: _ => e < s_now s + fst p | [] => False end ->
+  (Exists (fun p => snd p = 0) l \/
+   ecount (s_now s + fold_right (fun p acc => fst p + acc) 0 l) s <= fold_right (fun p acc => snd p + acc) 0 l) ->
+  forall r', In r' (s_recs (run cfg t0 (ops ++ blocks2 l))) -> akey r' <> akey r.
+Proof. exact expired_gone_eventually2_all. Qed.
+Print Assumptions C16_expired_gone_within_blocks_any_limits.
+
 (** The structural invariants the above rest on (no hypothesis about names): one record per
     (account, name key, value); every stored expiration has a matching queue entry; the queue
     has no duplicates; every stored attribute name is in normal form. *)
@@ -196,6 +212,13 @@ Theorem C16_checker_holds_on_model : forall cfg accts names t0 ops o b q q',
             (model_obs cfg accts names (fst (step cfg s o)) (snd (step cfg s o)) q') = [].
 Proof. exact checker_holds_on_model_histories. Qed.
 Print Assumptions C16_checker_holds_on_model.
+
+(** ... and so does the raw-queue clause (tag prop:stored_expiration_has_queue_entry), on every
+    history without any hypothesis. *)
+Theorem C16_queue_checker_holds_on_model : forall cfg accts names t0 ops ok q,
+  p_queue (model_obs cfg accts names (run cfg t0 ops) ok q) = true.
+Proof. exact queue_checker_holds_on_model_histories. Qed.
+Print Assumptions C16_queue_checker_holds_on_model.
 
 (** ** The known finding of C15 seen through attributes.
     Root names "bbcc" and "bb" belong to address 9; 9 binds aa.bbcc for address 1.  Address 1 is
